@@ -150,14 +150,25 @@ var c13Optional = map[string][]string{
 
 // the canonical corpus plus valid files that are not gofmt's output (explicit empty statements, parentheses)
 func c13Templates() []gen.Template {
-	return append(append([]gen.Template{}, gen.Templates()...), gen.Load("noncanonical.txt")...)
+	ts := append(append([]gen.Template{}, gen.Templates()...), gen.Load("noncanonical.txt")...)
+	// sources with syntax errors: the parser's Bad nodes are nodes like any other
+	return append(ts, gen.Load("broken.txt")...)
+}
+
+// c13Parse parses error-tolerantly: a file with syntax errors still gives a tree.
+func c13Parse(fset *token.FileSet, src string) *ast.File {
+	af, _ := parser.ParseFile(fset, "a.go", src, parser.ParseComments)
+	if af == nil {
+		panic("c13: no tree for " + src)
+	}
+	return af
 }
 
 func init() {
 	core.Register(&core.Prop{
 		ID:    "C13",
 		Level: "model_checking",
-		Rule: "for every corpus tree (canonical and non-canonical corpus): Inspect/Walk visit logs under every single-node pruning predicate (one run per visited node; thorough: every pair of nodes), every node-type predicate, every removal of one optional child and of all at once, the traversal rooted at every inner node instead of the file, the callback leaving through a panic at every call (no call may follow), " +
+		Rule: "for every corpus tree (canonical, non-canonical and syntactically broken sources with BadDecl/BadStmt/BadExpr nodes): Inspect/Walk visit logs under every single-node pruning predicate (one run per visited node; thorough: every pair of nodes), every node-type predicate, every removal of one optional child and of all at once, the traversal rooted at every inner node instead of the file, the callback leaving through a panic at every call (no call may follow), " +
 			"a visitor that hands a different visitor to each subtree, and a 3-file Package; oracle = reflection-derived child lists (exactly once, parent first, nil after children, pruned subtrees skipped) " +
 			"and go/ast.Inspect of the original ast mapped through the decorator's node map; state = (tree, predicate); non-trivial = predicate that prunes a node with children",
 		Assumptions: []string{"go/ast.Inspect of this toolchain is the reference traversal order", "struct field order of dst node types equals source order of children (checked against go/ast on every tree)"},
@@ -188,7 +199,8 @@ func runC13(ctx *core.Ctx, unit int) {
 		return
 	}
 	t := ts[unit]
-	f, err := decorator.Parse(t.Src)
+	fset0 := token.NewFileSet()
+	f, err := decorator.NewDecorator(fset0).DecorateFile(c13Parse(fset0, t.Src))
 	if err != nil {
 		panic(err)
 	}
@@ -257,10 +269,7 @@ func c13Check(cs c13Case, ctx *core.Ctx) core.Outcome {
 		return fail("engine", "unknown template")
 	}
 	fset := token.NewFileSet()
-	af, err := parser.ParseFile(fset, "a.go", t.Src, parser.ParseComments)
-	if err != nil {
-		panic(err)
-	}
+	af := c13Parse(fset, t.Src)
 	dec := decorator.NewDecorator(fset)
 	f, err := dec.DecorateFile(af)
 	if err != nil {
